@@ -23,7 +23,49 @@ def set_fixed(prog, fixed):
     prog.fixed = [(re.compile(rx), what) for rx, what in fixed]
 
 
-def fn_mode(prog, bounds, variant='entrait', opts_only=None, fixed=(), name='foo', trait_name='Foo', with_spec=True):
+def normalised_attr(ex, attr0, variant):
+    """C17: the canonical spelling of an invocation - macro `entrait`, the fallbacks of the macro variant written out as
+    explicit options, then `no_deps = false` / `export = false` dropped (they are "identical to omitting them")."""
+    from .spec import EXPORT_VARIANTS, UNIMOCK_VARIANTS
+    attr2 = clone_val(attr0)
+    opts = ex.force_slot(attr2.fields, attr2.names.index('opts'))
+    if isinstance(opts, Obj) and opts is attr0.fields[attr0.names.index('opts')]:
+        opts = clone_val(opts)
+        attr2.fields[attr2.names.index('opts')] = opts
+
+    def get(name):
+        return ex.force_slot(opts.fields, opts.names.index(name))
+
+    def put(name, v):
+        opts.fields[opts.names.index(name)] = v
+
+    def given_true(name):
+        return Some(Obj('SpanOpt', None, [True, Span(('input', 'norm.' + name))]))
+    if variant in EXPORT_VARIANTS and get('export').variant == 'None':
+        put('export', given_true('export'))
+    if variant in UNIMOCK_VARIANTS and get('unimock').variant == 'None':
+        put('unimock', given_true('unimock'))
+    for name in ('no_deps', 'export'):
+        o = get(name)
+        if o.variant == 'Some':
+            v = o.fields[0].fields[0]
+            b = v if isinstance(v, bool) else ex.branch(v, 'norm:' + name)
+            put(name, given_true(name) if b else NONE())
+    return attr2
+
+
+def metamorphic(ex, prog, body, attr0, item0, variant, out, wrap_attr):
+    """runs the same item again under the canonical spelling of its options and obliges both expansions to coincide"""
+    from . import spec
+    attr2 = normalised_attr(ex, attr0, variant)
+    item2 = clone_val(item0)
+    apply_variant(ex, 'entrait', Ptr(attr2.fields, attr2.names.index('opts')))
+    out2 = ex.run_body(prog.bodies[body], [wrap_attr(attr2), item2])
+    ex.notes['meta_out2'] = out2
+    spec.spec_metamorphic(ex, ex.notes['obligations'], out, out2)
+
+
+def fn_mode(prog, bounds, variant='entrait', opts_only=None, fixed=(), name='foo', trait_name='Foo', with_spec=True, meta=False):
     gen = inputs.Gen(prog, bounds)
     set_fixed(prog, fixed)
 
@@ -39,12 +81,14 @@ def fn_mode(prog, bounds, variant='entrait', opts_only=None, fixed=(), name='foo
             if with_spec:
                 from . import spec
                 ex.notes['obligations'] = spec.spec_fn_mode(ex, variant, attr0, item0, out)
+                if meta and ex.notes['obligations'] is not None:
+                    metamorphic(ex, prog, 'entrait_for_single_fn', attr0, item0, variant, out, new_cell)
             return out
         return target, [attr, item]
     return setup
 
 
-def mod_mode(prog, bounds, variant='entrait', opts_only=None, fixed=(), max_items=2, with_spec=True):
+def mod_mode(prog, bounds, variant='entrait', opts_only=None, fixed=(), max_items=2, with_spec=True, meta=False):
     gen = inputs.Gen(prog, bounds)
     set_fixed(prog, fixed)
 
@@ -60,6 +104,8 @@ def mod_mode(prog, bounds, variant='entrait', opts_only=None, fixed=(), max_item
             if with_spec:
                 from . import spec
                 ex.notes['obligations'] = spec.spec_mod_mode(ex, variant, attr0, item0, out)
+                if meta and ex.notes['obligations'] is not None:
+                    metamorphic(ex, prog, 'entrait_for_mod', attr0, item0, variant, out, new_cell)
             return out
         return target, [attr, item]
     return setup
@@ -102,6 +148,8 @@ def trait_mode(prog, bounds, variant='entrait', sl=None, with_spec=True):
             if with_spec:
                 from . import spec
                 ex.notes['obligations'] = spec.spec_trait_mode(ex, variant, attr0, item0, out)
+                if (sl or {}).get('meta') and ex.notes['obligations'] is not None:
+                    metamorphic(ex, prog, 'output_tokens', attr0, item0, variant, out, lambda a: a)
             return out
         return target, [attr, item]
     return setup
@@ -310,15 +358,7 @@ def front_item_mode(prog, sl, with_spec=True):
         layout = sl.get('layout')
         if not layout:
             return front.sym_item_tokens('t', n)
-        cells = []
-        fixed_fn = [('I', 'pub'), ('I', 'fn'), ('I', 'g0'), ('G', '(', list(front.PAREN_GROUPS['(deps: &impl B0)'])), ('G', '{', [])]
-        for part in layout:
-            if part == 'FN':
-                cells += list(fixed_fn)
-            elif part == 'STRUCT':
-                cells += [('I', 'struct'), ('I', 'Y'), ('P', ';')]
-            else:
-                cells += front.sym_item_segments('it.' + part, 'reduced' if part.startswith('r') else ('single-fn' if part.startswith('s') else 'full'))
+        cells = front.layout_cells(layout)
         return cells
 
     def setup(ex):
